@@ -41,6 +41,27 @@
 //  * responses to the current survey written in the first half of T (T >= 100
 //    ms) while the context keeps receiving are all delivered (raw TCP and real
 //    respondents only; the raw nng respondent may drop frames itself).
+//
+// Second-audit additions:
+//  * ghost contexts: every few rounds a thread opens 1-3 short-lived contexts
+//    in a row; each sends a survey tagged MAXCTX + thread (a tag no working
+//    context uses) whose answers are slow / prompt / around the deadline /
+//    late, posts 0-2 receives and is closed 0-3 ms later, while its survey is
+//    live and answers are still being written.  The adversary also replays
+//    the ids of such closed contexts later on.  An answer carrying a ghost tag
+//    that is delivered anywhere but to the ghost that sent the survey is a
+//    wrong-context / stale delivery; a receive pending at the close ends with
+//    NNG_ECLOSED (or a legitimate answer), never by timing out after the
+//    context is gone.
+//  * survey times of 1-39 ms in one general survey out of ten; the edge values
+//    0 and NNG_DURATION_INFINITE are driven and what receives return is
+//    recorded as classes, not judged.
+//  * flood: the adversary answers one survey 150 times at once while nobody
+//    receives (the context buffers 128); afterwards the context receives until
+//    the deadline (each frame at most once, none late) or sends the next
+//    survey (no buffered frame may survive it).
+//  * discarded_<class> counts only frames with a later-written delivered frame
+//    on the same raw TCP connection (they demonstrably reached the surveyor).
 #include "vfh.h"
 
 #include <errno.h>
@@ -60,12 +81,16 @@
 #define MS 1000000ULL
 #define LATE_NS (5 * MS)
 #define STICKY_MS 20 // timeout given ONCE to the aio that the reused-aio rounds keep re-submitting
+#define NSTICKY 8
+#define NSLOT (2 * MAXCTX) // survey tables: contexts 0..MAXCTX-1, ghost contexts of thread i at MAXCTX + i
+#define FLOOD_N 150 // answers to one flood survey (the context's receive buffer holds 128)
+#define HUGE_T 3600000
 
-enum { K_CORRECT, K_DUP, K_STALE, K_OTHER, K_NOBIT, K_LATE, K_MID, K_ECHO, K_FAKE, K_HOP, K_N };
-static const char *kname[K_N] = { "correct", "dup", "stale", "other-ctx", "nobit", "late", "mid", "echo", "never-issued-id", "hop-before-id" };
+enum { K_CORRECT, K_DUP, K_STALE, K_OTHER, K_NOBIT, K_LATE, K_MID, K_ECHO, K_FAKE, K_HOP, K_GHOST, K_N };
+static const char *kname[K_N] = { "correct", "dup", "stale", "other-ctx", "nobit", "late", "mid", "echo", "never-issued-id", "hop-before-id", "closed-ctx-id" };
 
-enum { D_PROMPT, D_SLOW, D_SILENT, D_LATE, D_MID, D_N };
-static const char *dname[D_N] = { "prompt", "slow", "silent", "late", "mid" };
+enum { D_PROMPT, D_SLOW, D_SILENT, D_LATE, D_MID, D_FLOOD, D_N };
+static const char *dname[D_N] = { "prompt", "slow", "silent", "late", "mid", "flood" };
 
 enum { SRC_TCP, SRC_XRESP, SRC_REAL, SRC_N };
 static const char *srcname[SRC_N] = { "tcpadv", "xresp", "real" };
@@ -73,10 +98,10 @@ static const char *srcname[SRC_N] = { "tcpadv", "xresp", "real" };
 enum { AK_NONE, AK_TCP, AK_XRESP };
 static const char *akname[3] = { "none", "tcpadv", "xresp" };
 
-enum { OP_COLLECT, OP_MIXED, OP_SUPERSEDE, OP_SENDOVER, OP_SENDOVER_DL, OP_ABORT, OP_QUICK, OP_PROBE, OP_REUSED, OP_N };
+enum { OP_COLLECT, OP_MIXED, OP_SUPERSEDE, OP_SENDOVER, OP_SENDOVER_DL, OP_ABORT, OP_QUICK, OP_PROBE, OP_REUSED, OP_GHOST, OP_FLOOD, OP_EDGE, OP_N };
 enum { TM_EXPLICIT, TM_INHERIT, TM_DEFAULT, TM_N }; // where a context's survey time comes from
 static const char *tmname[TM_N] = { "set-per-survey", "inherited-from-socket", "default-1s" };
-static const char *opname[OP_N] = { "collect", "mixed-timeouts", "supersede", "send-over-recv", "send-over-recv-at-deadline", "abort", "quick", "probe", "reused-aio-timeout-set-once" };
+static const char *opname[OP_N] = { "collect", "mixed-timeouts", "supersede", "send-over-recv", "send-over-recv-at-deadline", "abort", "quick", "probe", "reused-aio-timeout-set-once", "ghost-ctx-closed-mid-survey", "flood-fills-receive-buffer", "edge-survey-time" };
 
 enum { DUE_NOW, DUE_REL, DUE_LATE, DUE_MID };
 
@@ -129,6 +154,7 @@ typedef struct {
 	_Atomic uint64_t t_call, t_ret; // ns; t_ret == 0 until the send returned
 	_Atomic uint32_t T;             // ms
 	_Atomic uint32_t id;            // as seen on the wire by the adversary
+	_Atomic uint64_t t_closed;      // ghost contexts: when nng_ctx_close of the surveying context returned
 } srec;
 
 // responses: one per frame put on the wire (or handed to nng_send)
@@ -142,7 +168,7 @@ typedef struct {
 } rrec;
 
 static struct {
-	srec            *st[MAXCTX];
+	srec            *st[NSLOT];
 	uint32_t         st_cap;
 	rrec            *rr;
 	uint32_t         rr_cap;
@@ -170,7 +196,8 @@ rr_alloc(uint32_t c, uint32_t s, int klass, int src, uint32_t conn, uint32_t pip
 static srec *
 st_get(uint32_t c, uint32_t s)
 {
-	if (c >= (uint32_t) G.nctx || s == 0 || s >= G.st_cap) return NULL;
+	if (s == 0 || s >= G.st_cap) return NULL;
+	if (c >= (uint32_t) G.nctx && (c < MAXCTX || c >= MAXCTX + (uint32_t) G.nctx)) return NULL;
 	return &G.st[c][s];
 }
 
@@ -226,10 +253,11 @@ typedef struct {
 static struct {
 	pthread_mutex_t mtx;
 	vf_rng          rng;
-	uint32_t        latest[MAXCTX];
+	uint32_t        latest[NSLOT];
 	bool            kills;
 	uint32_t        first_id; // first survey id seen on the wire (ids are handed out consecutively)
 	long            inj[K_N], late_written[K_N], seen, killed, unpublished;
+	long            ghosts_seen, closed_written, closed_written_live, floods, flood_frames;
 	bool            inj_state[3][K_N]; // target survey: old / latest / expired-latest
 } A;
 
@@ -245,6 +273,7 @@ adv_init(const casecfg *cc)
 	A.kills = cc->kills;
 	A.first_id = 0;
 	A.seen = A.killed = A.unpublished = 0;
+	A.ghosts_seen = A.closed_written = A.closed_written_live = A.floods = A.flood_frames = 0;
 }
 
 // an adversarial extra frame for some survey seen earlier.  A.mtx held.
@@ -256,7 +285,14 @@ adv_extra(uint32_t cur_c, pframe *f)
 	uint32_t c, s;
 	f->due_kind = vf_chance(r, 1, 4) ? DUE_REL : DUE_NOW;
 	f->due = f->due_kind == DUE_REL ? (uint64_t) vf_range(r, 100, 3000) * 1000ULL : 0;
-	if (u < 40) {
+	if (A.ghosts_seen > 0 && vf_chance(r, 1, 4)) {
+		// the id of a survey sent by a context that was closed right after
+		// (or is about to be): nobody owns that id any more
+		c = MAXCTX + vf_below(r, (uint32_t) G.nctx);
+		if (A.latest[c] < 1) return 0;
+		s = A.latest[c] - vf_below(r, A.latest[c] < 3 ? A.latest[c] : 3);
+		f->klass = K_GHOST;
+	} else if (u < 40) {
 		// an earlier survey of a context (biased to the surveying one)
 		c = vf_chance(r, 1, 2) ? cur_c : vf_below(r, (uint32_t) G.nctx);
 		if (A.latest[c] < 2) return 0;
@@ -307,7 +343,7 @@ adv_extra(uint32_t cur_c, pframe *f)
 
 // decide what to send in response to one survey frame
 static int
-adv_plan(uint32_t id, uint32_t c, uint32_t s, int dir, pframe *out, bool *kill)
+adv_plan(uint32_t id, uint32_t c, uint32_t s, int dir, pframe *out, bool *kill, int *flood)
 {
 	int     n = 0;
 	vf_rng *r = &A.rng;
@@ -318,6 +354,8 @@ adv_plan(uint32_t id, uint32_t c, uint32_t s, int dir, pframe *out, bool *kill)
 	if (A.first_id == 0) A.first_id = id;
 	if (s > A.latest[c]) A.latest[c] = s;
 	A.seen++;
+	if (c >= MAXCTX) A.ghosts_seen++;
+	*flood = 0;
 	uint32_t k = vf_below(r, 100);
 	int      npre = k < 40 ? 0 : k < 72 ? 1 : k < 90 ? 2 : 3;
 	for (int i = 0; i < npre; i++) n += adv_extra(c, &out[n]);
@@ -328,6 +366,11 @@ adv_plan(uint32_t id, uint32_t c, uint32_t s, int dir, pframe *out, bool *kill)
 	f->s = s;
 	f->due = 0;
 	switch (dir) {
+	case D_FLOOD:
+		// more answers than the context can buffer, all at once
+		*flood = FLOOD_N - 1;
+		A.floods++;
+		__attribute__((fallthrough));
 	case D_PROMPT:
 		f->klass = K_CORRECT;
 		f->due_kind = DUE_NOW;
@@ -399,6 +442,14 @@ adv_account(const pframe *f, uint64_t t_before)
 	if (late) A.late_written[f->klass]++;
 	int st = f->s < A.latest[f->c] ? 0 : late ? 2 : 1;
 	A.inj_state[st][f->klass] = true;
+	if (f->c >= MAXCTX) {
+		srec    *e = st_get(f->c, f->s);
+		uint64_t tcl = e ? atomic_load(&e->t_closed) : 0;
+		if (tcl != 0 && t_before > tcl) {
+			A.closed_written++;
+			if (t_before < atomic_load(&e->t_call) + (uint64_t) atomic_load(&e->T) * MS) A.closed_written_live++;
+		}
+	}
 	pthread_mutex_unlock(&A.mtx);
 }
 
@@ -531,8 +582,18 @@ tcp_conn_thread(void *arg)
 		}
 		pframe pl[10];
 		bool   kill = false;
-		int    n = adv_plan(id, tag & 0xff, (uint32_t) seq, (int) ((tag >> 8) & 0xff), pl, &kill);
+		int    flood = 0;
+		int    n = adv_plan(id, tag & 0xff, (uint32_t) seq, (int) ((tag >> 8) & 0xff), pl, &kill, &flood);
 		dbg_ev(fd, "survey", tag & 0xff, (uint32_t) seq, (uint32_t) kill);
+		if (flood > 0) {
+			pframe ff = { .idword = id, .c = tag & 0xff, .s = (uint32_t) seq, .pre = 0, .klass = K_DUP, .due_kind = DUE_NOW, .due = 0 };
+			for (int i = 0; i < flood; i++) {
+				if (tcp_emit(fd, &ff) != 0) goto out;
+			}
+			pthread_mutex_lock(&A.mtx);
+			A.flood_frames += flood;
+			pthread_mutex_unlock(&A.mtx);
+		}
 		for (int i = 0; i < n; i++) {
 			if (!adv_resolve(&pl[i])) continue;
 			if (pl[i].due == 0 || ndq >= NDQ) {
@@ -656,7 +717,15 @@ xresp_thread(void *arg)
 		nng_msg_free(m);
 		pframe pl[10];
 		bool   kill = false;
-		int    n = adv_plan(id, tag & 0xff, (uint32_t) seq, (int) ((tag >> 8) & 0xff), pl, &kill);
+		int    flood = 0;
+		int    n = adv_plan(id, tag & 0xff, (uint32_t) seq, (int) ((tag >> 8) & 0xff), pl, &kill, &flood);
+		if (flood > 0) {
+			pframe ff = { .idword = id, .c = tag & 0xff, .s = (uint32_t) seq, .pre = 0, .klass = K_DUP, .due_kind = DUE_NOW, .due = 0 };
+			for (int i = 0; i < flood; i++) xresp_emit(pipe, &ff);
+			pthread_mutex_lock(&A.mtx);
+			A.flood_frames += flood;
+			pthread_mutex_unlock(&A.mtx);
+		}
 		for (int i = 0; i < n; i++) {
 			if (!adv_resolve(&pl[i])) continue;
 			if (pl[i].due != 0 && ndq < NDQ) {
@@ -691,7 +760,7 @@ typedef struct {
 	bool       is_sock;
 	pthread_t  thr;
 	vf_rng     rng;
-	long       served, silent, late_sent, send_fail;
+	long       served, silent, late_sent, send_fail, closed_sent, closed_sent_live;
 	_Atomic int  state; // 0 receiving, 1 waiting to answer, 2 sending
 	_Atomic long got, sent_ok, sent_err, last_err;
 } rworker;
@@ -793,6 +862,14 @@ real_worker(void *arg)
 		atomic_store(&w->state, 0);
 		w->served++;
 		if (certainly_late(c, s, tb)) w->late_sent++;
+		if (c >= MAXCTX) {
+			srec    *e = st_get(c, s);
+			uint64_t tcl = e ? atomic_load(&e->t_closed) : 0;
+			if (tcl != 0 && tb > tcl) {
+				w->closed_sent++;
+				if (tb < atomic_load(&e->t_call) + (uint64_t) atomic_load(&e->T) * MS) w->closed_sent_live++;
+			}
+		}
 	}
 	nng_aio_free(aio);
 	return NULL;
@@ -816,7 +893,7 @@ typedef struct cthr {
 	vf_rng         rng;
 	nng_aio       *saio;
 	rop            r[NROP];
-	rop            sticky; // its timeout is set once, at creation, and never again
+	rop            sticky[NSTICKY]; // their timeout is set once, at creation, and never again
 	bool           sticky_broken;
 	unsigned       rnext;
 	// the most recent survey of this context
@@ -830,6 +907,10 @@ typedef struct cthr {
 	nng_duration rcvtimeo; // NNG_OPT_RECVTIMEO in force (what NNG_DURATION_DEFAULT means)
 	int          rounds;
 	bool         opt_changed; // the survey-time option was changed after the current survey was sent
+	struct cthr *ghost;       // state of the short-lived contexts this thread opens and closes mid-survey
+	bool         force_opt;   // next survey: set the survey-time option to force_val (edge values)
+	nng_duration force_val;
+	int          floods;
 	uint32_t scan_from;
 	struct {
 		int      tmo, tmo_eff, rv, kind; // kind: 0 aio, 1 sync, 2 nonblock, +4 multi
@@ -842,8 +923,9 @@ typedef struct cthr {
 	long dlv[K_N], ops[OP_N], dirs[D_N], surveys, estate_never, estate_expired, estate_ambiguous, deadline_timeouts, own_timeouts, clamp_by[4], cancelled_by_send,
 	    completed_before_send, cancel_won, cancel_lost, must_checked, must_rounds, after_taint[3], fresh_probes, expiry_probe_msgs, idle_expiries, lost_unconfirmed, multi_posted, multi_timeouts, multi_msgs, multi_cancelled, sync_recvs, sync_res[4],
 	    nonblock_recvs, nonblock_again, nonblock_msgs, rcvtimeo_own, rcvtimeo_clamped, opt_changes, opt_change_deadlines, huge_rounds, huge_msgs, surveys_by_tm[TM_N], deadline_by_tm[TM_N],
-	    old_before_new, sticky_clamped, sticky_unclamped_after_clamped, sticky_rounds;
-	bool dlv_seen[OP_N][K_N], res_seen[OP_N][D_N][4];
+	    old_before_new, sticky_clamped, sticky_unclamped_after_clamped, sticky_rounds, sticky_aimed[4], closed_live, closed_expired, closed_recv_eclosed, closed_recv_other, closed_with_recv, closed_with_queued,
+	    small_T_surveys, small_T_deadlines, small_T_msgs, flood_rounds, flood_written, flood_delivered, flood_overflowed, flood_dropped, flood_superseded, edge_rounds[2], edge_res[2][4];
+	bool dlv_seen[OP_N][K_N], res_seen[OP_N][D_N][5];
 } cthr;
 
 // one receive operation and the survey state it was issued under
@@ -855,6 +937,8 @@ typedef struct {
 	uint32_t seq, T;
 	uint64_t t_call, t_ret;
 	bool     tainted, cancelled, sync, nonblock, multi, opt_changed;
+	bool     closing;     // the context is closed while this receive is pending
+	uint64_t t_close_ret; // when nng_ctx_close returned
 } rcv;
 
 static void rlog_dump(cthr *t);
@@ -946,9 +1030,9 @@ r_start(cthr *t, rcv *rc, int tmo, const nng_ctx *other)
 // re-submit the aio whose timeout was set once; nothing about the aio is
 // touched between operations, as an application with one long-lived aio does
 static void
-r_start_sticky(cthr *t, rcv *rc)
+r_start_sticky(cthr *t, rcv *rc, int k)
 {
-	rop *o = &t->sticky;
+	rop *o = &t->sticky[k];
 	pthread_mutex_lock(&o->m);
 	if (!o->done) vf_harness_fail("reused aio still busy");
 	o->done = false;
@@ -1018,7 +1102,7 @@ r_wait(cthr *t, rcv *rc, nng_msg **mp)
 		    opname[t->op], rc->tmo, (unsigned long long) ((rc->t_rcall - rc->t_call) / MS), rc->seq, rc->T, 2 * BOUND_MS);
 		nng_aio_cancel(o->aio);
 		rc->cancelled = true;
-		if (o == &t->sticky) t->sticky_broken = true; // do not pay the watchdog again
+		if (o >= &t->sticky[0] && o <= &t->sticky[NSTICKY - 1]) t->sticky_broken = true; // do not pay the watchdog again
 		pthread_mutex_lock(&o->m);
 		while (!o->done) pthread_cond_wait(&o->cv, &o->m);
 	}
@@ -1093,7 +1177,7 @@ judge_msg(cthr *t, nng_msg *m, uint32_t e1, uint32_t e2, uint64_t t_done)
 	return !bad;
 }
 
-enum { RES_MSG, RES_TIMEOUT, RES_ESTATE, RES_CANCEL };
+enum { RES_MSG, RES_TIMEOUT, RES_ESTATE, RES_CANCEL, RES_CLOSED };
 
 // Judge the outcome of one receive.  Returns the result code.
 static int
@@ -1128,6 +1212,7 @@ r_judge(cthr *t, rcv *rc, int rv, nng_msg *m)
 	case 0:
 		judge_msg(t, m, rc->seq, t->seq, t_done);
 		t->res_seen[t->op][t->dir][RES_MSG] = true;
+		if (rc->T < 40) t->small_T_msgs++;
 		if (rc->multi) t->multi_msgs++;
 		if (rc->nonblock) t->nonblock_msgs++;
 		break;
@@ -1146,11 +1231,18 @@ r_judge(cthr *t, rcv *rc, int rv, nng_msg *m)
 			snprintf(key, sizeof(key), "C07/deadline/timeout-early/%s", own ? "own-timeout" : "clamped");
 			vf_violation(key, "ctx %d op %s: receive (aio timeout %d ms, issued %llu us after survey %u with T=%u ms was sent) failed with NNG_ETIMEDOUT %llu us before the earliest legitimate instant",
 			    t->idx, opname[t->op], rc->tmo, (unsigned long long) ((rc->t_rcall - rc->t_call) / 1000), rc->seq, rc->T, (unsigned long long) ((dl - t_done) / 1000));
+		} else if (rc->closing && rc->t_close_ret != 0 && rc->t_close_ret + 2 * MS <= dl) {
+			// nng_ctx_close had returned before this receive could time out
+			// legitimately, and it was still pending afterwards: it waited on
+			// a context that no longer exists
+			vf_violation("C07/ctx-close/receive-outlived-context/ETIMEDOUT", "ghost ctx %d: a receive pending on survey %u (T=%u ms) when nng_ctx_close was called timed out %llu us after nng_ctx_close had returned instead of ending with NNG_ECLOSED",
+			    t->idx, rc->seq, rc->T, (unsigned long long) ((t_done - rc->t_close_ret) / 1000));
 		} else if (own) {
 			t->own_timeouts++;
 			if (rc->tmo == NNG_DURATION_DEFAULT) t->rcvtimeo_own++;
 		} else {
 			t->deadline_timeouts++;
+			if (rc->T < 40) t->small_T_deadlines++;
 			t->deadline_by_tm[t->tmode]++;
 			if (rc->opt_changed) t->opt_change_deadlines++;
 			if (rc->tmo == NNG_DURATION_DEFAULT && rc->tmo_eff > 0) t->rcvtimeo_clamped++;
@@ -1198,6 +1290,13 @@ r_judge(cthr *t, rcv *rc, int rv, nng_msg *m)
 		}
 		t->res_seen[t->op][t->dir][RES_CANCEL] = true;
 		break;
+	case NNG_ECLOSED:
+		if (rc->closing) {
+			t->closed_recv_eclosed++;
+			t->res_seen[t->op][t->dir][RES_CLOSED] = true;
+			break;
+		}
+		__attribute__((fallthrough));
 	default:
 		snprintf(key, sizeof(key), "C07/disturbed/recv-error/%s", errname(rv));
 		vf_violation(key, "ctx %d op %s: receive on survey %u failed with %s", t->idx, opname[t->op], rc->seq, nng_strerror(rv));
@@ -1298,7 +1397,13 @@ t_send(cthr *t, int dir, uint32_t T)
 	size_t   size = VF_BODY_MIN + vf_below(&t->rng, 64);
 	int      rv;
 	if (nng_msg_alloc(&m, size) != 0) vf_harness_fail("msg alloc");
-	if (t->tmode == TM_EXPLICIT) {
+	if (t->force_opt) {
+		// an edge value of the option; what it means is recorded, not judged,
+		// and nothing about this survey is ever called late
+		rv = t->is_sock ? nng_socket_set_ms(t->sock, NNG_OPT_SURVEYOR_SURVEYTIME, t->force_val) : nng_ctx_set_ms(t->ctx, NNG_OPT_SURVEYOR_SURVEYTIME, t->force_val);
+		if (rv != 0) vf_harness_fail("set survey time %d: %s", (int) t->force_val, nng_strerror(rv));
+		T = HUGE_T;
+	} else if (t->tmode == TM_EXPLICIT) {
 		set_survey_time(t, T);
 	} else {
 		T = t->T_fixed; // whatever the context got when it was opened
@@ -1344,6 +1449,7 @@ t_send(cthr *t, int dir, uint32_t T)
 	t->surveys++;
 	t->surveys_by_tm[t->tmode]++;
 	t->dirs[dir]++;
+	if (T < 40) t->small_T_surveys++;
 	return 0;
 }
 
@@ -1455,7 +1561,7 @@ collect(cthr *t, bool mixed, int stop_after)
 					if (vf_chance(r, 1, 3) && left > 16) {
 						tmo = left - 6 - (int) vf_below(r, 6); // ends just before the deadline
 					} else {
-						tmo = 1 + (int) vf_below(r, t->T / 3);
+						tmo = 1 + (t->T >= 6 ? (int) vf_below(r, t->T / 3) : 0);
 					}
 				} else {
 					tmo = long_tmo(t);
@@ -1515,9 +1621,160 @@ probe_expired(cthr *t)
 static uint32_t
 pick_T(vf_rng *r, uint32_t lo, uint32_t hi)
 {
-	// roughly log-uniform
+	// roughly log-uniform; one general-purpose survey in ten is very short
 	uint32_t a = vf_range(r, lo, hi), b = vf_range(r, lo, hi);
+	if (lo == 40 && !(dbg_off & 32) && vf_chance(r, 1, 10)) return vf_range(r, 1, 39);
 	return a < b ? a : b;
+}
+
+// A context is closed while its survey is live and its respondents are still
+// answering (or about to): the id must leave the socket's survey map with the
+// context.  The ghost contexts of thread i survey under tag MAXCTX + i, which
+// no working context ever uses, so wherever such an answer ends up being
+// delivered - a working context, the next ghost (which may occupy the memory
+// of the closed one) - judge_msg reports it.  A receive pending at the close
+// ends with NNG_ECLOSED (or with an answer that came first).
+static void
+ghost_round(cthr *t)
+{
+	cthr   *g = t->ghost;
+	vf_rng *r = &t->rng;
+	int     n = 1 + (int) vf_below(r, 3);
+	for (int i = 0; i < n; i++) {
+		rcv rc[2];
+		int rv;
+		if (g->seq + 2 >= G.st_cap) return;
+		if ((rv = nng_ctx_open(&g->ctx, t->sock)) != 0) vf_harness_fail("ghost ctx open: %s", nng_strerror(rv));
+		uint32_t u = vf_below(r, 100);
+		int      dir = u < 50 ? D_SLOW : u < 72 ? D_PROMPT : u < 86 ? D_MID : D_LATE;
+		g->op = OP_GHOST;
+		g->ops[OP_GHOST]++;
+		if (t_send(g, dir, vf_range(r, 80, 250)) != 0) { // long enough that the close rarely meets the expiry of a pending receive (a known aio defect)
+			nng_ctx_close(g->ctx);
+			continue;
+		}
+		int nrecv = (int) vf_below(r, 3);
+		for (int j = 0; j < nrecv; j++) {
+			uint32_t q = vf_below(r, 3);
+			r_start(t, &rc[j], q == 0 ? NNG_DURATION_INFINITE : q == 1 ? LONG_MS : (int) g->T + 5 + (int) vf_below(r, 20), &g->ctx);
+			rc[j].seq = g->seq;
+			rc[j].T = g->T;
+			rc[j].t_call = g->t_call;
+			rc[j].t_ret = g->t_ret;
+			rc[j].closing = true;
+			rc[j].multi = nrecv > 1;
+			g->nrecv++;
+		}
+		// close at once, a moment later (answers on their way), or with
+		// answers already buffered and nobody receiving
+		uint32_t w = vf_below(r, 3);
+		if (w == 1) vf_usleep((int) vf_below(r, 2000));
+		if (w == 2) vf_usleep((int) vf_below(r, nrecv ? 600 : 3500));
+		nng_ctx_close(g->ctx);
+		uint64_t tcl = vf_now_ns();
+		srec    *e = st_get((uint32_t) g->idx, g->seq);
+		atomic_store(&e->t_closed, tcl);
+		if (tcl < g->t_call + (uint64_t) g->T * MS) {
+			g->closed_live++;
+			if (nrecv) g->closed_with_recv++;
+		} else {
+			g->closed_expired++; // the machine was too busy: the survey ran out first
+		}
+		for (int j = 0; j < nrecv; j++) {
+			nng_msg *m;
+			rc[j].t_close_ret = tcl;
+			rv = r_wait(g, &rc[j], &m);
+			rlog_add(g, &rc[j], rv);
+			rv = r_judge(g, &rc[j], rv, m);
+			if (rv != NNG_ECLOSED) g->closed_recv_other++;
+		}
+	}
+}
+
+static void
+flood_counts(cthr *t, uint32_t seq, uint32_t from, long *written, long *delivered)
+{
+	uint32_t n = atomic_load(&G.rr_n);
+	*written = *delivered = 0;
+	for (uint32_t i = from; i < n; i++) {
+		rrec *e = &G.rr[i];
+		if (atomic_load(&e->ctx) != (uint32_t) t->idx || atomic_load(&e->seq) != seq || atomic_load(&e->src) != SRC_TCP || atomic_load(&e->t_after) == 0) continue;
+		uint32_t kl = atomic_load(&e->klass);
+		if (kl != K_CORRECT && kl != K_DUP) continue;
+		(*written)++;
+		if (atomic_load(&e->delivered)) (*delivered)++;
+	}
+}
+
+// The adversary answers one survey FLOOD_N times at once while nobody
+// receives: the context's receive buffer (128) fills up and the rest is
+// dropped.  What was buffered is then either received (each frame once, none
+// after the deadline) or wiped out by the next survey (none may survive).
+static void
+flood_round(cthr *t)
+{
+	vf_rng *r = &t->rng;
+	long    w, d;
+	t->floods++;
+	if (t_send(t, D_FLOOD, vf_range(r, 150, 260)) != 0) return;
+	uint32_t seq = t->seq, from = t->scan_from;
+	uint64_t until = t->t_call + (uint64_t) t->T * MS / 2;
+	for (;;) {
+		flood_counts(t, seq, from, &w, &d);
+		if (w >= FLOOD_N || vf_now_ns() >= until) break;
+		vf_usleep(300);
+	}
+	// written is not yet arrived: leave the surveyor the first half of the
+	// survey time to take the frames in (only the evidence depends on this)
+	while (vf_now_ns() < until) vf_usleep(500);
+	t->flood_rounds++;
+	if (vf_chance(r, 1, 3)) {
+		// a full buffer is superseded
+		t->flood_superseded++;
+		if (t_send(t, D_PROMPT, pick_T(r, 100, 260)) != 0) return;
+		if (collect(t, false, 0)) scan_lost(t);
+		return;
+	}
+	bool complete = collect(t, false, 0);
+	flood_counts(t, seq, from, &w, &d);
+	t->flood_written += w;
+	t->flood_delivered += d;
+	if (complete && w >= FLOOD_N && d >= 128 && d < w) {
+		// everything was written in the first half of the survey, the context
+		// then received until a receive timed out: what is missing was dropped
+		t->flood_overflowed++;
+		t->flood_dropped += w - d;
+	}
+}
+
+// NNG_OPT_SURVEYOR_SURVEYTIME 0 and NNG_DURATION_INFINITE are accepted by the
+// option; what a receive then returns is recorded as a class and not judged
+// (a delivered message must still be an answer to this survey).
+static void
+edge_round(cthr *t)
+{
+	static const char *en[2] = { "zero", "infinite" };
+	int                which = (int) vf_below(&t->rng, 2);
+	rcv                rc;
+	t->force_opt = true;
+	t->force_val = which == 0 ? NNG_DURATION_ZERO : NNG_DURATION_INFINITE;
+	int rv = t_send(t, D_PROMPT, HUGE_T);
+	t->force_opt = false;
+	if (rv != 0) return;
+	t->edge_rounds[which]++;
+	for (int i = 0; i < 3; i++) {
+		nng_msg *m;
+		if (i > 0 || vf_chance(&t->rng, 1, 2)) vf_usleep((int) vf_below(&t->rng, 3000));
+		r_start(t, &rc, 60, NULL);
+		rv = r_wait(t, &rc, &m);
+		rlog_add(t, &rc, rv);
+		t->edge_res[which][rv == 0 ? 0 : rv == NNG_ETIMEDOUT ? 1 : rv == NNG_ESTATE ? 2 : 3]++;
+		vf_class("survey-time/%s/%s/recv-%s", en[which], t->is_sock ? "sock" : "ctx", errname(rv));
+		if (rv != 0) break;
+		judge_msg(t, m, rc.seq, t->seq, rc.t_done);
+	}
+	t->tainted = true; // nothing is expected of this survey
+	t->taint_at = 0;
 }
 
 static void *
@@ -1540,10 +1797,13 @@ ctx_thread(void *arg)
 			static const nng_duration tv[6] = { NNG_DURATION_INFINITE, 15, 60, 150, 400, 20000 };
 			set_rcvtimeo(t, tv[vf_below(r, 6)]);
 		}
+		if (t->ghost != NULL && !(dbg_off & 64) && vf_chance(r, 2, 7)) ghost_round(t);
 		int      op = k < 26 ? OP_COLLECT : k < 38 ? OP_MIXED : k < 56 ? OP_SUPERSEDE : k < 66 ? OP_SENDOVER : k < 76 ? OP_SENDOVER_DL : k < 84 ? OP_ABORT : k < 92 && t->tmode != TM_DEFAULT && !t->sticky_broken ? OP_REUSED : OP_QUICK;
+		if (t->cc->adv != AK_NONE && t->floods < 2 && t->tmode != TM_DEFAULT && !(dbg_off & 128) && vf_chance(r, 1, 10)) op = OP_FLOOD;
 		t->op = op;
 		t->ops[op]++;
 		switch (op) {
+		case OP_FLOOD: flood_round(t); break;
 		case OP_COLLECT:
 		case OP_MIXED: {
 			static const int dirs[10] = { D_PROMPT, D_PROMPT, D_PROMPT, D_SLOW, D_SILENT, D_SILENT, D_LATE, D_LATE, D_MID, D_MID };
@@ -1626,24 +1886,66 @@ ctx_thread(void *arg)
 			break;
 		}
 		case OP_REUSED: {
-			// One aio, timeout (20 ms) set once.  First a receive so late in a
-			// survey that it is cut to the survey deadline, then - after a
+			// Aios whose timeout (20 ms) is set once.  First a receive so late
+			// in a survey that it is cut to the survey deadline, then - after a
 			// pause, so that no expiry of the first is still in flight - a
 			// receive right at the start of the next survey, whose own 20 ms
 			// are far less than the survey time: it must time out by itself.
+			// One round in three the first receives (one per aio, back to back)
+			// are aimed at the last instants of the survey: a receive is then
+			// accepted by the protocol, cut to a deadline that has arrived by
+			// the time the operation is started, and refused on the spot.
+			rcv  rcs[NSTICKY];
+			int  rv1[NSTICKY], n1 = 1;
+			bool clamped[NSTICKY];
 			t->sticky_rounds++;
 			if (t_send(t, D_SILENT, vf_range(r, 60, 120)) != 0) break;
-			uint64_t at = t->t_call + (uint64_t) t->T * MS - 8 * MS;
-			while (vf_now_ns() < at) vf_usleep(200);
-			r_start_sticky(t, &rc);
-			int  rv1 = r_finish(t, &rc);
-			bool clamped = rv1 != NNG_ESTATE && rc.t_rcall + STICKY_MS * MS > rc.t_ret + (uint64_t) rc.T * MS;
-			if (clamped) t->sticky_clamped++;
+			bool aimed = vf_chance(r, 1, 3);
+			if (aimed) {
+				// the library's deadline is a whole millisecond: its clock (in
+				// ms) when the survey went out, plus T
+				// ms) when the survey went out, plus T.  While the receives are
+				// being issued every mutex acquisition in the library is slow,
+				// so that the clock moves between the protocol's look at it (before
+				// it takes the socket lock) and the start of the operation.
+				uint64_t tick = (t->t_ret / MS + t->T) * MS, at = tick - (uint64_t) vf_range(r, 500, 3500) * 1000ULL;
+				while (vf_now_ns() + 200000 < at) vf_usleep(100);
+				while (vf_now_ns() < at) {
+				}
+				n1 = 4;
+				if (!(dbg_off & 512)) vf_pt_target(NNI_VP_MTX_LOCK, 1000, 250, 350);
+			} else {
+				uint64_t at = t->t_call + (uint64_t) t->T * MS - 8 * MS;
+				while (vf_now_ns() < at) vf_usleep(200);
+			}
+			for (int j = 0; j < n1; j++) {
+				r_start_sticky(t, &rcs[j], j);
+				rcs[j].multi = n1 > 1;
+			}
+			if (aimed) vf_pt_target(NNI_VP_MTX_LOCK, (t->cc->jit_permille + 3) / 4, 0, t->cc->jit_us);
+			for (int j = 0; j < n1; j++) {
+				rv1[j] = r_finish(t, &rcs[j]);
+				clamped[j] = rv1[j] != NNG_ESTATE && rcs[j].t_rcall + STICKY_MS * MS > rcs[j].t_ret + (uint64_t) rcs[j].T * MS;
+				if (clamped[j]) t->sticky_clamped++;
+				if (aimed) t->sticky_aimed[rv1[j] == NNG_ETIMEDOUT ? (rcs[j].t_done < rcs[j].t_rstarted + 200000 ? 0 : 1) : rv1[j] == NNG_ESTATE ? 2 : 3]++;
+			}
 			vf_msleep(25);
 			if (t_send(t, D_SILENT, vf_range(r, 150, 300)) != 0) break;
-			r_start_sticky(t, &rc);
-			int rv2 = r_finish(t, &rc);
-			if (clamped && rv2 == NNG_ETIMEDOUT) t->sticky_unclamped_after_clamped++;
+			rcv rc2[NSTICKY];
+			for (int j = 0; j < n1; j++) {
+				r_start_sticky(t, &rc2[j], j);
+				rc2[j].multi = n1 > 1;
+				if (j > 0) rc2[j].tainted = true; // the first one's own timeout ends the survey
+			}
+			for (int j = 0; j < n1; j++) {
+				int rv2 = r_finish(t, &rc2[j]);
+				if (clamped[j] && rv2 == NNG_ETIMEDOUT) t->sticky_unclamped_after_clamped++;
+				if (rv2 == NNG_ETIMEDOUT && rc2[j].t_done + MS < rc2[j].t_rcall + STICKY_MS * MS) {
+					fprintf(stderr, "DBG reused aio %d: its previous receive was %s, issued %lld us before the earliest deadline of its survey, returned from the call after %llu us, result %s seen %llu us after the call\n", j,
+					    aimed ? "aimed at the deadline" : "8 ms before the deadline", (long long) ((int64_t) (rcs[j].t_call + (uint64_t) rcs[j].T * MS - rcs[j].t_rcall) / 1000),
+					    (unsigned long long) ((rcs[j].t_rstarted - rcs[j].t_rcall) / 1000), errname(rv1[j]), (unsigned long long) ((rcs[j].t_done - rcs[j].t_rcall) / 1000));
+				}
+			}
 			break;
 		}
 		case OP_ABORT: {
@@ -1659,6 +1961,12 @@ ctx_thread(void *arg)
 			break;
 		}
 		default:
+			if (t->tmode == TM_EXPLICIT && x + 2 < t->rounds && vf_chance(r, 1, 7) && !(dbg_off & 256)) {
+				t->op = OP_EDGE;
+				t->ops[OP_EDGE]++;
+				edge_round(t);
+				break;
+			}
 			if (t->tmode == TM_EXPLICIT && x + 2 < t->rounds && vf_chance(r, 1, 8) && !(dbg_off & 8)) {
 				// an hour-long survey: responses arrive, nothing wraps; the next
 				// round's survey replaces it
@@ -1693,7 +2001,7 @@ static void
 run_case(long idx, const casecfg *cc)
 {
 	nng_socket surv;
-	cthr      *th = calloc(MAXCTX, sizeof(cthr));
+	cthr      *th = calloc(NSLOT, sizeof(cthr));
 	pthread_t  pt[MAXCTX];
 	char       url[128], durl[MAXREAL + 1][128];
 	int        rv, ndial = 0;
@@ -1704,8 +2012,11 @@ run_case(long idx, const casecfg *cc)
 	G.nonce = cc->nonce;
 	G.nctx = cc->nctx;
 	G.st_cap = (uint32_t) cc->rounds * 2 + 8;
-	for (int i = 0; i < cc->nctx; i++) G.st[i] = calloc(G.st_cap, sizeof(srec));
-	G.rr_cap = (uint32_t) (cc->rounds * cc->nctx) * 2 * 8 * 4 + 4096;
+	for (int i = 0; i < cc->nctx; i++) {
+		G.st[i] = calloc(G.st_cap, sizeof(srec));
+		G.st[MAXCTX + i] = calloc(G.st_cap, sizeof(srec));
+	}
+	G.rr_cap = (uint32_t) (cc->rounds * cc->nctx) * 2 * 8 * 4 * 2 + 4096 + (uint32_t) cc->nctx * 2 * 4 * (FLOOD_N + 16);
 	G.rr = calloc(G.rr_cap, sizeof(rrec));
 	atomic_store(&G.rr_n, 0);
 	atomic_store(&G.stop, false);
@@ -1787,8 +2098,21 @@ run_case(long idx, const casecfg *cc)
 			if (!t->is_sock && (rv = nng_ctx_open(&t->ctx, surv)) != 0) vf_harness_fail("ctx open: %s", nng_strerror(rv));
 			if (nng_aio_alloc(&t->saio, NULL, NULL) != 0) vf_harness_fail("aio alloc");
 			for (int j = 0; j < NROP; j++) rop_init(&t->r[j]);
-			rop_init(&t->sticky);
-			nng_aio_set_timeout(t->sticky.aio, STICKY_MS); // once
+			for (int j = 0; j < NSTICKY; j++) {
+				rop_init(&t->sticky[j]);
+				nng_aio_set_timeout(t->sticky[j].aio, STICKY_MS); // once
+			}
+			// the contexts this thread opens, surveys on and closes mid-survey
+			cthr *g = &th[MAXCTX + i];
+			g->idx = MAXCTX + i;
+			g->cc = cc;
+			g->sock = surv;
+			g->tmode = TM_EXPLICIT;
+			g->rcvtimeo = NNG_DURATION_INFINITE;
+			g->taint_at = UINT64_MAX;
+			vf_rng_seed(&g->rng, cc->key, 150 + (uint64_t) i);
+			if (nng_aio_alloc(&g->saio, NULL, NULL) != 0) vf_harness_fail("aio alloc");
+			t->ghost = g;
 		}
 	}
 	for (int i = 0; i < cc->nctx; i++) {
@@ -1800,8 +2124,9 @@ run_case(long idx, const casecfg *cc)
 	// receive aios first (this waits for an expiry in flight), then contexts
 	for (int i = 0; i < cc->nctx; i++) {
 		for (int j = 0; j < NROP; j++) rop_fini(&th[i].r[j]);
-		rop_fini(&th[i].sticky);
+		for (int j = 0; j < NSTICKY; j++) rop_fini(&th[i].sticky[j]);
 		nng_aio_free(th[i].saio);
+		nng_aio_free(th[MAXCTX + i].saio);
 	}
 	for (int i = 0; i < cc->nctx; i++) {
 		if (!th[i].is_sock) nng_ctx_close(th[i].ctx);
@@ -1831,8 +2156,8 @@ run_case(long idx, const casecfg *cc)
 	long        dlv[K_N] = { 0 }, delivered = 0, surveys = 0;
 	char        buf[96];
 	const char *an = akname[cc->adv], *tn = vf_tran_names[cc->tran];
-	for (int i = 0; i < cc->nctx; i++) {
-		cthr *t = &th[i];
+	for (int ii = 0; ii < 2 * cc->nctx; ii++) {
+		cthr *t = ii < cc->nctx ? &th[ii] : &th[MAXCTX + ii - cc->nctx]; // working contexts, then their ghosts
 		for (int k = 0; k < K_N; k++) {
 			dlv[k] += t->dlv[k];
 			delivered += t->dlv[k];
@@ -1844,8 +2169,8 @@ run_case(long idx, const casecfg *cc)
 			snprintf(buf, sizeof(buf), "op_%s", opname[o]);
 			vf_stat(buf, t->ops[o]);
 			for (int d = 0; d < D_N; d++) {
-				static const char *rn[4] = { "message", "timeout", "estate", "cancelled" };
-				for (int q = 0; q < 4; q++) {
+				static const char *rn[5] = { "message", "timeout", "estate", "cancelled", "closed" };
+				for (int q = 0; q < 5; q++) {
 					if (t->res_seen[o][d][q]) vf_class("recv/%s/%s/%s/%s", t->is_sock ? "sock" : "ctx", opname[o], dname[d], rn[q]);
 				}
 			}
@@ -1877,6 +2202,9 @@ run_case(long idx, const casecfg *cc)
 		vf_stat("reused_aio_rounds", t->sticky_rounds);
 		vf_stat("reused_aio_receive_clamped_to_deadline", t->sticky_clamped);
 		vf_stat("reused_aio_own_timeout_after_clamped_receive", t->sticky_unclamped_after_clamped);
+		vf_stat("reused_aio_receive_at_deadline_timed_out_at_once", t->sticky_aimed[0]);
+		vf_stat("reused_aio_receive_at_deadline_timed_out_later", t->sticky_aimed[1]);
+		vf_stat("reused_aio_receive_at_deadline_estate", t->sticky_aimed[2]);
 		if (t->sticky_unclamped_after_clamped) vf_class("reused-aio/%s/own-timeout-after-clamped", t->is_sock ? "sock" : "ctx");
 		vf_stat("multi_receives_posted", t->multi_posted);
 		vf_stat("multi_receives_timed_out_together", t->multi_timeouts);
@@ -1905,10 +2233,65 @@ run_case(long idx, const casecfg *cc)
 		}
 		vf_stat("undelivered_on_connection_not_known_alive", t->lost_unconfirmed);
 		vf_stat("deadlines_passed_without_receiver", t->idle_expiries);
+		vf_stat("ctx_closed_with_live_survey", t->closed_live);
+		vf_stat("ctx_closed_after_survey_expired", t->closed_expired);
+		vf_stat("ctx_closed_with_receive_pending", t->closed_with_recv);
+		vf_stat("ctx_close_pending_receive_eclosed", t->closed_recv_eclosed);
+		vf_stat("ctx_close_pending_receive_other_result", t->closed_recv_other);
+		vf_stat("surveys_time_below_40ms", t->small_T_surveys);
+		vf_stat("deadline_timeouts_time_below_40ms", t->small_T_deadlines);
+		vf_stat("responses_delivered_time_below_40ms", t->small_T_msgs);
+		vf_stat("flood_rounds", t->flood_rounds);
+		vf_stat("flood_rounds_superseded_with_full_buffer", t->flood_superseded);
+		vf_stat("flood_frames_written", t->flood_written);
+		vf_stat("flood_frames_delivered", t->flood_delivered);
+		vf_stat("flood_rounds_buffer_overflowed", t->flood_overflowed);
+		vf_stat("flood_frames_dropped_buffer_full", t->flood_dropped);
+		vf_stat("edge_surveys_time_zero", t->edge_rounds[0]);
+		vf_stat("edge_surveys_time_infinite", t->edge_rounds[1]);
+		for (int w = 0; w < 2; w++) {
+			static const char *en[2] = { "zero", "infinite" }, *rn[4] = { "message", "timeout", "estate", "other" };
+			for (int q = 0; q < 4; q++) {
+				snprintf(buf, sizeof(buf), "edge_time_%s_recv_%s", en[w], rn[q]);
+				vf_stat(buf, t->edge_res[w][q]);
+			}
+		}
 	}
 	vf_stat("surveys", surveys);
 	vf_stat("responses_delivered", delivered);
 	long injected = 0, late = 0;
+	// a frame counts as discarded by the surveyor only if it demonstrably
+	// reached it: a frame written later on the same raw TCP connection (one
+	// thread writes a connection, so a higher serial was written later) was
+	// delivered.  The same count over the nng raw respondent is kept apart
+	// (that socket may drop frames itself).
+	long      disc_w[K_N] = { 0 }, disc_x[K_N] = { 0 };
+	{
+		uint32_t n = atomic_load(&G.rr_n), npw = 0;
+		struct {
+			uint32_t src, pipe;
+		} pw[320]; // (src, pipe) with a delivered frame at a higher serial
+		for (uint32_t i = n; i-- > 0;) {
+			rrec    *e = &G.rr[i];
+			uint32_t src = atomic_load(&e->src), pipe = atomic_load(&e->pipe), kl = atomic_load(&e->klass);
+			if (src == SRC_REAL || kl >= K_N) continue;
+			bool seen = false;
+			for (uint32_t q = 0; q < npw && !seen; q++) seen = pw[q].src == src && pw[q].pipe == pipe;
+			if (atomic_load(&e->delivered)) {
+				if (!seen && npw < 320) {
+					pw[npw].src = src;
+					pw[npw].pipe = pipe;
+					npw++;
+				}
+			} else if (seen && atomic_load(&e->t_after) != 0) {
+				if (src == SRC_TCP) disc_w[kl]++; else disc_x[kl]++;
+			}
+		}
+	}
+	snprintf(buf, sizeof(buf), "cases_adv_%s", an);
+	vf_stat(buf, 1);
+	snprintf(buf, sizeof(buf), "cases_tran_%s", tn);
+	vf_stat(buf, 1);
 	for (int k = 0; k < K_N; k++) {
 		snprintf(buf, sizeof(buf), "dlv_%s", kname[k]);
 		vf_stat(buf, dlv[k]);
@@ -1919,7 +2302,11 @@ run_case(long idx, const casecfg *cc)
 			injected += A.inj[k];
 			late += A.late_written[k];
 			snprintf(buf, sizeof(buf), "discarded_%s", kname[k]);
-			vf_stat(buf, A.inj[k] - dlv[k]);
+			vf_stat(buf, disc_w[k]);
+			snprintf(buf, sizeof(buf), "undelivered_via_raw_respondent_%s", kname[k]);
+			vf_stat(buf, disc_x[k]);
+			snprintf(buf, sizeof(buf), "undelivered_not_known_to_have_arrived_%s", kname[k]);
+			vf_stat(buf, A.inj[k] - dlv[k] - disc_w[k] - disc_x[k]);
 			for (int s = 0; s < 3; s++) {
 				if (A.inj_state[s][k]) vf_class("inj/%s/%s/%s", an, sn[s], kname[k]);
 			}
@@ -1930,6 +2317,17 @@ run_case(long idx, const casecfg *cc)
 	vf_stat("certainly_late_by_real_respondents", rlate);
 	vf_stat("surveys_seen_by_adversary", A.seen);
 	vf_stat("pipe_kills", A.killed);
+	{
+		long cw = A.closed_written, cwl = A.closed_written_live;
+		for (int i = 0; i < P.nw; i++) {
+			cw += P.w[i].closed_sent;
+			cwl += P.w[i].closed_sent_live;
+		}
+		vf_stat("responses_written_for_closed_ctx", cw);
+		vf_stat("responses_written_for_closed_ctx_inside_survey_time", cwl);
+		vf_stat("flood_surveys_answered", A.floods);
+		vf_stat("flood_frames_injected", A.flood_frames);
+	}
 	vf_stat("real_responses", served);
 	vf_stat("real_unanswered", rsilent);
 	vf_stat("real_discarded", served - dlv[K_ECHO]);
@@ -1940,7 +2338,10 @@ run_case(long idx, const casecfg *cc)
 		    an, tn, cc->nctx, cc->use_sock, cc->nreal, surveys, delivered, injected, A.inj[K_STALE], A.inj[K_OTHER], A.inj[K_NOBIT], late + rlate, A.killed);
 	}
 	pthread_mutex_destroy(&A.mtx);
-	for (int i = 0; i < cc->nctx; i++) free(G.st[i]);
+	for (int i = 0; i < cc->nctx; i++) {
+		free(G.st[i]);
+		free(G.st[MAXCTX + i]);
+	}
 	free(G.rr);
 	free(th);
 	vf_nng_fini("C07");
